@@ -1,6 +1,7 @@
 package props
 
 import (
+	"bytes"
 	"fmt"
 	"io"
 
@@ -180,6 +181,23 @@ func c13(r *eng.Run) {
 	res2 := runE1(r, sp2, 1, K, r.Pick(60000, 400000))
 	e1Evidence(r, 1, K, res, res2)
 	coverageReport(r, "readNull", "readBool")
+	// digit runs of every length 1..20 with one foreign byte (the ASCII neighbours of the digits,
+	// number punctuation, white space) at every position: word-at-a-time digit tests
+	{
+		var fam [][]byte
+		for L := 1; L <= 20; L++ {
+			for pos := 0; pos < L; pos++ {
+				for _, fb := range []byte("/:;<=>?@.eE-+ ,\x00\x1f\x7f\xb1") {
+					for _, dg := range []byte("17") {
+						b := bytes.Repeat([]byte{dg}, L)
+						b[pos] = fb
+						fam = append(fam, b, append([]byte(" "), b...))
+					}
+				}
+			}
+		}
+		runFamily(r, "digit-runs-with-one-foreign-byte", "Read* exclusivity", fam, checkTokens)
+	}
 	// the complete 256-entry table, directly
 	for b := 0; b < 256; b++ {
 		for _, pre := range []string{"", " ", "\t\n", "\r \t\n"} {
